@@ -57,6 +57,8 @@ type Clause struct {
 	T []any `json:"t"`
 	// Ht is an optional head annotation: ["eternal"] prints @[_], ["eternal2"] prints @[_, _]
 	Ht []any `json:"ht,omitempty"`
+	// Decl: not a clause but the declaration "Decl <head> descr [extensional()]." of the head's predicate
+	Decl bool `json:"decl,omitempty"`
 }
 
 // Decode parses JSON keeping integers exact.
@@ -453,6 +455,9 @@ func TransformText(t []any) string {
 
 // ClauseText renders a clause (with final period).
 func ClauseText(c Clause) string {
+	if c.Decl {
+		return "Decl " + AtomText(c.H) + " descr [extensional()]."
+	}
 	s := AtomText(c.H)
 	if len(c.Ht) > 0 {
 		switch c.Ht[0].(string) {
